@@ -245,9 +245,16 @@ static void run_geometries(int op, int si, int mi, int di, int full, const pixma
                 else if (filter == 2) {
                     static const pixman_fixed_t k[2 + 9] = { 3 << 16, 3 << 16, 0x1000, 0x2000, 0x1000, 0x2000, 0x4000, 0x2000, 0x1000, 0x2000, 0x1000 };
                     pixman_image_set_filter(t, PIXMAN_FILTER_CONVOLUTION, k, 11);
-                } else {
+                } else if ((di + si) & 1) {
                     int n; pixman_fixed_t *p = pixman_filter_create_separable_convolution(&n, 0x18000, 0x10000, PIXMAN_KERNEL_LINEAR, PIXMAN_KERNEL_BOX, PIXMAN_KERNEL_BOX, PIXMAN_KERNEL_BOX, 2, 1);
                     if (p) { pixman_image_set_filter(t, PIXMAN_FILTER_SEPARABLE_CONVOLUTION, p, n); free(p); }
+                } else {
+                    /* a sharp hand-made table: 3x2 taps, 2 x-phases, 1 y-phase, dominant taps 0.75 and 1.25 (products of two taps exceed 1/2 and 1),
+                     * a negative lobe and a zero tap */
+                    static const pixman_fixed_t sharp[4 + 6 + 2] = { 3 << 16, 2 << 16, 1 << 16, 0,
+                                                                     0x2000, 0xc000, 0x2000,   -0x2000, 0x14000, -0x2000,
+                                                                     0xc000, 0x4000 };
+                    pixman_image_set_filter(t, PIXMAN_FILTER_SEPARABLE_CONVOLUTION, sharp, 12);
                 }
             }
         }
